@@ -412,6 +412,12 @@ fn judge(acc: &mut Acc, case: &Value, out: &Value) {
             );
             return;
         }
+        if verdict == "ok" && faults.iter().all(|f| f.starts_with("garbage-link")) {
+            // a verifier may skip a surplus file it cannot parse (the valid link next to it suffices):
+            // the statement does not make that stage fatal
+            acc.note("unparsable-surplus-file-tolerated(not judged)");
+            return;
+        }
         if verdict == "ok" {
             // The acceptance itself is the business of C01/C02/C06/C07/C15. What is judged here
             // also then: the faulty layout does not pass the stage the fault sits at, so none of
